@@ -80,6 +80,9 @@ def _rp(dom, exprs):
     return points.repro_head(dom) + "".join(points.show(e) for e in exprs)
 
 
+_ORD = {"N": None}
+
+
 def check_binary(ctx, dom, cfp, P, Q, rp, rq, fam, two_t_curve):
     """P' + Q', P' == Q', P' != Q' for one representation pair."""
     c, p = dom.curve, dom.curve.p
@@ -96,6 +99,15 @@ def check_binary(ctx, dom, cfp, P, Q, rp, rq, fam, two_t_curve):
     else:
         cfp_b = cfp
     B = build(cfp_b, Q, rq, rng)
+    # order labels: a point may carry any multiple of its order (sums inherit the left operand's label); labels are bookkeeping, two
+    # objects denoting the same point with different labels are the same point
+    if _ORD["N"] and _ALT["i"] % 2 == 0:
+        la, lb = _ORD["N"] * (1 + _ALT["i"] % 3), _ORD["N"] * (1 + (_ALT["i"] // 3) % 4)
+        if P is not None and rp in ("legacy", "j1", "jzr"):
+            A = build(cfp, P, rp, rng, order=la)
+        if Q is not None and rq in ("legacy", "j1", "jzr"):
+            B = build(cfp_b, Q, rq, rng, order=lb)
+        ctx.count("operands_with_different_order_labels")
     sa, sb = points.src(A), points.src(B)
     E = c.add(P, Q)
     tt = two_t_curve and any(X is not None and X[1] == 0 for X in (P, Q, E))
@@ -198,6 +210,7 @@ def run(ctx, name, kind, **kw):
             two_t = t.has_two_torsion()
             fam = "toy_even" if t.N % 2 == 0 else "toy_odd"
             elems = [None] + t.pts
+            _ORD["N"] = t.N          # the group order annihilates every point: a legal label for any of them
             for P in elems:
                 for rp in reps_for(P):
                     if P is None and rp == "yz0_001" and two_t:
